@@ -25,6 +25,10 @@ type C10Case struct {
 	Sal    map[string]int64 `json:"sal,omitempty"`
 }
 
+// c10Reuse, when non-nil (native fuzzing only), caches the four S0 targets between
+// iterations; see the Check function.
+var c10Reuse map[string]*c10Target
+
 // the known installed state S0: version-tagged observer rules
 var c10S0 = map[string]int64{"s0": 900, "s1": 901, "s2": 902}
 var c10S0Sal = map[string]int64{"s0": 5, "s1": 3, "s2": 1}
@@ -298,16 +302,37 @@ func init() {
 				}
 				es = append(es, &entry{name: name, tg: tg, full: full})
 			}
-			b1, e1 := newC10Builder(c.State)
-			mk("BuildRuleFromString", true, b1, e1)
-			b2, e2 := newC10Builder(c.State)
-			mk("BuildRuleWithIncremental", false, b2, e2)
-			p4, e4 := newC10Pool()
-			mk("UpdatePooledRules", true, p4, e4)
-			p5, e5 := newC10Pool()
-			mk("UpdatePooledRulesIncremental", false, p5, e5)
+			if c10Reuse != nil && c.State == "s0" && len(c10Reuse) == 4 {
+				// fuzzing: targets of the previous iteration are reused when that iteration
+				// left them (verifiably) in state S0
+				for _, n := range []string{"BuildRuleFromString", "BuildRuleWithIncremental", "UpdatePooledRules", "UpdatePooledRulesIncremental"} {
+					es = append(es, &entry{name: n, tg: c10Reuse[n], full: n == "BuildRuleFromString" || n == "UpdatePooledRules"})
+				}
+			} else {
+				b1, e1 := newC10Builder(c.State)
+				mk("BuildRuleFromString", true, b1, e1)
+				b2, e2 := newC10Builder(c.State)
+				mk("BuildRuleWithIncremental", false, b2, e2)
+				p4, e4 := newC10Pool()
+				mk("UpdatePooledRules", true, p4, e4)
+				p5, e5 := newC10Pool()
+				mk("UpdatePooledRulesIncremental", false, p5, e5)
+			}
 			if x.Failed() {
 				return
+			}
+			if c10Reuse != nil {
+				for k := range c10Reuse {
+					delete(c10Reuse, k)
+				}
+				defer func() {
+					// keep the targets only if every entry point rejected and nothing went wrong
+					if !x.Failed() && x.hasClass("rejected") && c.State == "s0" {
+						for _, e := range es {
+							c10Reuse[e.name] = e.tg
+						}
+					}
+				}()
 			}
 			before := map[string]c10Obs{}
 			for _, e := range es {
